@@ -5,7 +5,7 @@
    Argument order of load_git / check: [guard] (false: the code as it is; true: the proposed repair of finding F2),
    [force] (the --force flag of `worktree remove`, true in the code), [isrepo]. *)
 From Coq Require Import List ZArith String Ascii Bool Arith.
-From Verif Require Import Lib.Sexp Model.C20_git Proofs.C20_git.
+From Verif Require Import Lib.Sexp Gen.C20_syspath Model.C20_import Model.C20_git Proofs.C20_git Proofs.C20_import.
 Import ListNotations.
 Open Scope string_scope. Open Scope list_scope. Open Scope nat_scope.
 
@@ -240,3 +240,74 @@ Theorem C20_remove_by_name_refused_where_path_works :
   wt_remove true p (conc s p b c (AFull d)) = Some (conc s p b c ANoWt).
 Proof. exact remove_by_name_refused_where_path_works. Qed.
 Print Assumptions C20_remove_by_name_refused_where_path_works.
+
+(* ---- the "package absent at that reference" path with inspection allowed (the default): GriffeLoader.load falls back to
+   dynamic_import(top_module, finder.search_paths), and load_git restricts the search paths to the checkout.
+   The import system of the calling process is part of the state (sys.path, sys.modules, which directory holds which
+   module, byte code on or off, the __pycache__ entries written); the law of importer.sys_path is REGENERATED from
+   src/_griffe/importer.py (Gen/C20_syspath.v). *)
+
+(* the regenerated law: sys.path is replaced by the given paths while an import runs *)
+Theorem C20_sys_path_law_replaces : forall paths old, sys_path_law paths old = paths.
+Proof. exact law_is_replace. Qed.
+Print Assumptions C20_sys_path_law_replaces.
+
+(* for every process state and file system, with or without inspection: a package is only ever found in / imported from a
+   search path inside the checkout, byte code is only ever written there, sys.path is restored -- provided the package is not
+   already in sys.modules from elsewhere *)
+Theorem C20_load_git_imports_only_from_checkout :
+  forall pkg root sub inspection st o st',
+  (forall d, mod_lookup pkg (sys_modules st) = Some d -> In d (git_search_paths root sub)) ->
+  load_top pkg (git_search_paths root sub) inspection st = (o, st') ->
+  sys_path st' = sys_path st /\
+  pycache_confined (git_search_paths root sub) st st' /\
+  match o with FoundOnDisk d | Imported d => In d (git_search_paths root sub) | NotFound => True end.
+Proof. exact load_git_imports_only_from_checkout. Qed.
+Print Assumptions C20_load_git_imports_only_from_checkout.
+
+(* the absent package: ImportError and a process state that is exactly what it was *)
+Theorem C20_absent_package_not_found :
+  forall pkg root sub inspection st,
+  mod_lookup pkg (sys_modules st) = None ->
+  (forall d, In d (git_search_paths root sub) -> has_module st d pkg = false) ->
+  load_top pkg (git_search_paths root sub) inspection st = (NotFound, st).
+Proof. exact absent_package_not_found. Qed.
+Print Assumptions C20_absent_package_not_found.
+
+(* every history of imports one load performs (the fallback, then whatever the inspector asks for), under ANY law that puts
+   nothing but the given paths on sys.path -- the regenerated one is such a law (generated_law_confining) *)
+Theorem C20_imports_confined_every_history :
+  forall law, confining law ->
+  forall ms paths st os st',
+  paths <> [] -> cache_inside ms paths st ->
+  import_all_l law ms paths st = (os, st') ->
+  sys_path st' = sys_path st /\ (forall d, In (Some d) os -> In d paths) /\ pycache_confined paths st st'.
+Proof. exact import_all_confined. Qed.
+Print Assumptions C20_imports_confined_every_history.
+
+Theorem C20_generated_law_confining : confining sys_path_law.
+Proof. exact generated_law_confining. Qed.
+Print Assumptions C20_generated_law_confining.
+
+(* a sys_path that keeps the interpreter's entries after the given ones is not confining: the absent package is imported
+   from the user's working tree and byte-compiled there *)
+Theorem C20_prepend_law_imports_working_tree :
+  ~ confining prepend_law /\
+  exists st pkg root,
+    mod_lookup pkg (sys_modules st) = None /\
+    (forall d, In d (git_search_paths root []) -> has_module st d pkg = false) /\
+    fst (load_top_l prepend_law pkg (git_search_paths root []) true st) = Imported 1 /\
+    pycache (snd (load_top_l prepend_law pkg (git_search_paths root []) true st)) = [(1, pkg)] /\
+    ~ In 1 (git_search_paths root []).
+Proof. exact prepend_law_imports_working_tree. Qed.
+Print Assumptions C20_prepend_law_imports_working_tree.
+
+(* the hypothesis on sys.modules is needed (code as it is): a package the calling process has already imported from its
+   working tree is handed back whatever sys.path says -- load_git then returns the working tree's package for a reference
+   where it is absent (nothing is written) *)
+Theorem C20_cached_package_escapes :
+  exists st pkg root,
+    (forall d, In d (git_search_paths root []) -> has_module st d pkg = false) /\
+    load_top pkg (git_search_paths root []) true st = (Imported 1, st) /\ ~ In 1 (git_search_paths root []).
+Proof. exact cached_package_escapes. Qed.
+Print Assumptions C20_cached_package_escapes.
